@@ -277,6 +277,8 @@ def _update_local_references(rules):
     counter = ex.SymbolCounter()
 
     def previsit(node):
+        if node.defines_local and counter.is_bound(node.name):
+            node.shadows = True
         counter.previsit(node)
         if node.is_reference and counter.is_bound(node.name):
             node.is_local = True
